@@ -89,7 +89,9 @@ def run(ctx):
         for p in st.ok_paths:
             res = fields(p.payload)
             state = res.get('state')
-            smac = lookup(res.get('message'), ['ke2_message', 'mac'])
+            from rules import anatomy as _an
+            _pre, _mac = _an.server_login_mac_preimage(p)
+            smac = App('Mac', *_mac) if _mac is not None else None
             a = app_args(smac, 'Mac')
             okshape = a is not None and app_args(a[1], 'Hash') is not None
             if not okshape or link is None:
